@@ -44,7 +44,7 @@ def read_patterns(path):
 
 def run(pid, tier, seed, drv, replay):
     t0 = time.time()
-    VERIF, REPO = drv.VERIF, drv.REPO
+    VERIF, REPO = drv.SCRATCH, drv.REPO
     bdir = os.path.join(VERIF, "build", pid, "bin")
     wdir = os.path.join(VERIF, "work", pid)
     os.makedirs(bdir, exist_ok=True)
